@@ -13,7 +13,17 @@ From BB Require Import BN Brute SpaceFacts TrapFacts PercolateFacts AttractorFac
   Strict PetriNet Control Meta FilterFacts PetriNetFacts TrappistFacts DiagramStruct DiagramSem1 DiagramCache
   DiagramDepth DiagramComplete Termination ControlFacts MetaFacts Candidates StrictFacts MinExpandFacts CandidatesFacts SymbolicTest SymbolicTestFacts Signed ReductionFacts ControlFacts2 Main Blocks BlocksFacts ObsFacts OwnerFacts CandidatesTerm
   PartialOwner BlockMath BlockComplete ASeeds ASeedsFacts LogChecks SkipRule SkipRuleFacts Names NamesFacts Perm PermFacts SCC SCCFacts SCCStruct ControlFacts3 SCCTerm FilterSym Main2 StrategyFacts ControlFacts4 SkipRuleFacts2 SCCComplete SCCAttr BlockComplete2 ControlFacts5 Iso SkipSem ControlFacts6.
-From BB Require Import PyLib PyLibSd PyLibPerc PyLibCore PyLibControl PySrcControl PySrcControlFacts PySrcFindDriversFacts.
+From BB Require Import PyLib PyLibSd PyLibPerc PyLibCore PyLibControl PySrcControl PySrcControlFacts PySrcFindDriversFacts PySrcControlCorollaries.
+
+(* C07 for the SOURCE TEXT of control.find_drivers (generated function): every reported override forces, avoids forbidden variables, respects the bound; the list is complete and minimal *)
+Theorem C07_source_text_find_drivers_sound : forall (N : net) (ts : list (option bool)) (strat : bool) (assume : list (option bool)) (maxd : option nat) (forb : option (list nat)) (l : list space) (drv : space), length ts = nvars N -> length assume = nvars N -> py_find_drivers N ts strat (Some assume) maxd forb = Some l -> In drv l -> length drv = nvars N /\ forces_ldoi N drv assume ts = true /\ (forall v : nat, In v (dom drv) -> ~ In v (opt_vars forb)) /\ length (dom drv) <= match maxd with | Some k => k | None => length (vars_fixed (free_of ts assume)) end /\ (strat = false -> forall (v : nat) (b : bool), nth v drv None = Some b -> nth v (free_of ts assume) None = Some b).
+Proof. exact py_find_drivers_sound. Qed.
+
+Theorem C07_source_text_find_drivers_complete : forall (N : net) (ts : list (option bool)) (strat : bool) (assume : list (option bool)) (maxd : option nat) (forb : option (list nat)) (drv : list (option bool)), length ts = nvars N -> length assume = nvars N -> length drv = nvars N -> forces_ldoi N drv assume ts = true -> (forall v : nat, In v (dom drv) -> ~ In v (opt_vars forb) /\ v < nvars N) -> length (dom drv) <= match maxd with | Some k => k | None => length (vars_fixed (free_of ts assume)) end -> (strat = false -> forall (v : nat) (b : bool), nth v drv None = Some b -> nth v (free_of ts assume) None = Some b) -> exists (l : list space) (drv' : space), py_find_drivers N ts strat (Some assume) maxd forb = Some l /\ In drv' l /\ (forall v : nat, In v (dom drv') -> In v (dom drv)).
+Proof. exact py_find_drivers_complete. Qed.
+
+Theorem C07_source_text_find_drivers_minimal : forall (N : net) (ts : list (option bool)) (strat : bool) (assume : list (option bool)) (maxd : option nat) (forb : option (list nat)) (l : list space) (drv drv' : space), length ts = nvars N -> length assume = nvars N -> py_find_drivers N ts strat (Some assume) maxd forb = Some l -> In drv l -> In drv' l -> (forall v : nat, In v (dom drv') -> In v (dom drv)) -> forall v : nat, In v (dom drv) -> In v (dom drv').
+Proof. exact py_find_drivers_minimal. Qed.
 
 (* translator tie: the function GENERATED from the current text of control.find_drivers (PySrcControl.v; embedding PyLibControl.v: combinations, product, the dict comprehensions, the minimality test) computes the model's find_drivers for both strategies, any bound, any forbidden set and any assumption *)
 Theorem C07_source_find_drivers : forall (N : net) (ts : list (option bool)) (strat : bool) (assume : option space) (maxd : option nat) (forb : option (list nat)), length ts = nvars N -> length (opt_space N assume) = nvars N -> py_find_drivers N ts strat assume maxd forb = Some (find_drivers N ts strat (opt_space N assume) maxd (opt_vars forb)).
@@ -62,6 +72,9 @@ Proof. exact ff_filter_covers. Qed.
 Theorem C07_skip_feedforward_antichain : forall (succs : list (list (list (option bool)))) (a b : list space), (forall x : list (list (option bool)), In x succs -> forall (m : list (option bool)) (y : list (list (option bool))), In m x -> In y succs -> forall m' : list (option bool), In m' y -> length m = length m') -> In a (ff_filter succs) -> In b (ff_filter succs) -> subspace (signature a) (signature b) = true -> signature a = signature b.
 Proof. exact ff_filter_antichain. Qed.
 
+Print Assumptions C07_source_text_find_drivers_sound.
+Print Assumptions C07_source_text_find_drivers_complete.
+Print Assumptions C07_source_text_find_drivers_minimal.
 Print Assumptions C07_source_find_drivers.
 Print Assumptions C07_source_drivers_of_succession.
 Print Assumptions C07_find_drivers_sound.
